@@ -75,6 +75,7 @@ def jobs(tier):
                     continue
                 out.append(("v%d.flat2.%s.%s" % (version, layout, via), "job",
                             dict(version=version, shape="flat2", P=16384, K=1, layout=layout, decoy="none", via=via)))
+    out.extend(rw.matrix_rows(tier, "C13"))
     return out
 
 
